@@ -109,13 +109,15 @@ def _is_int_type(n):
 
 
 class SymExec:
-    def __init__(self, cf=None, tu=None, call_model=None, max_unroll=128, inline_depth=3):
+    def __init__(self, cf=None, tu=None, call_model=None, max_unroll=128, inline_depth=3, symbolic_loops=()):
         self.cf = cf
         self.tu = tu
         self.call_model = call_model
         self.max_unroll = max_unroll
         self.inline_depth = inline_depth
         self._depth = 0
+        self.symbolic_loops = set(symbolic_loops)   # loop variables kept symbolic: the body is evaluated once for a generic iteration
+        self.loops_seen = []    # (variable, init, condition text) of the symbolic loops met
         self.opaque = {}        # symbol name -> (function name, [argument values])
         self._scopes = []       # one set of local names per inlined call (callee locals are renamed name@depth)
 
@@ -229,6 +231,21 @@ class SymExec:
             init, _, cond, inc, body = parts
         else:
             init, cond, inc, body = parts[0], parts[1], parts[2], parts[3]
+        lv = None
+        if init is not None and init.get("kind") == "DeclStmt":
+            vds = [v for v in C.kids(init) if v["kind"] == "VarDecl"]
+            lv = vds[0].get("name") if vds else None
+        elif init is not None and init.get("kind") == "BinaryOperator" and init.get("opcode") == "=":
+            lv = C.ref_name(C.kids(init)[0])
+        if lv is not None and lv in self.symbolic_loops:
+            self.loops_seen.append((lv, re.sub(r"\s", "", C.text(init)), re.sub(r"\s", "", C.text(cond)) if cond else ""))
+            st.env[self._k(lv)] = Rat(Poly.var(lv))
+            res = []
+            for s2 in self.stmt(body, st):
+                if s2.loopctl:
+                    s2.loopctl = None
+                res.append(s2)
+            return res
         states = self.stmt(init, st) if init else [st]
         out = []
         for s0 in states:
@@ -400,7 +417,7 @@ class SymExec:
         if k == "CompoundAssignOperator":
             op = n.get("opcode")[:-1]
             key = self.lvalue(ks[0], st)
-            a = st.env[key] if isinstance(st.env.get(key), (Ptr, Vec)) else st.get(key)
+            a = st.env[key] if isinstance(st.env.get(key), (Ptr, Vec)) else self.expr(ks[0], st)
             b = self.expr(ks[1], st)
             v = self.binop(op, a, b, n, lhs_node=ks[0])
             st.env[key] = v
